@@ -491,6 +491,29 @@ func (w *c9world) session(name, role string, np int, oc, second string) string {
 	case "cancel":
 		okFlow = waitUntil(c9wait, subscribed)
 		cancel()
+	case "slowdial":
+		// the coordinator asks who is ready; this relayer's ready reply needs a stream to the coordinator and the dial is
+		// slow (NewStream is held at a gate); the caller gives the session up meanwhile; then the dial completes.
+		// Whenever Execute returns, the reply's stream must not be left registered or open afterwards.
+		gate := &closeGate{in: make(chan struct{}, 4), out: make(chan struct{})}
+		w.self.setDialGate(map[peer.ID]*closeGate{w.ids[1]: gate})
+		opened0 := w.self.opened()
+		okFlow = waitUntil(c9wait, subscribed)
+		_ = w.ghost.inner.Broadcast(peer.IDSlice{w.ids[0]}, []byte{}, comm.TssInitiateMsg, sid)
+		select {
+		case <-gate.in:
+		case <-time.After(c9wait):
+			okFlow = false
+		}
+		cancel()
+		select { // (a session whose reply is sent inline is still inside the dial and cannot return yet)
+		case <-returned:
+		case <-time.After(60 * time.Millisecond):
+		}
+		w.self.setDialGate(nil)
+		close(gate.out)
+		okFlow = okFlow && waitUntil(c9wait, isReturned) && waitUntil(c9wait, func() bool { return w.self.opened() > opened0 })
+		time.Sleep(20 * time.Millisecond) // let a send that outlived the session register its stream
 	case "precancel": // (cancelled before Execute was entered, see below)
 	case "badstart":
 		okFlow = waitUntil(c9wait, subscribed)
@@ -797,6 +820,8 @@ func genC09(g *G) {
 	}
 	g.Emit("sess", "d:P:2:comm>selfA3:ok,d:P:1:comm>selfA1:fail,d:c:1:ok")
 	g.Emit("sess", "a:p:1:gtorun,a:c:2:ok")
+	g.Emit("sess", "a:p:1:slowdial,a:p:1:ok")
+	g.Emit("sess", "b:P:2:slowdial,a:p:1:slowdial,b:c:1:ok")
 	g.Emit("sess", "a:p:2:gtorunforeign,a:p:1:ok")
 	g.Emit("sess", "a:P:1:gtoforeign,a:P:1:ok")
 	if g.Thorough() {
